@@ -1,6 +1,8 @@
 """Translation validation of the tracer: every traced alternative is evaluated
 (on whole grid arrays, with the real finite-difference operators standing for
 `D`) and compared with the real method run on the same inputs."""
+import os
+
 import numpy as np
 
 from . import coretrace
@@ -217,3 +219,97 @@ def call_helper_real(name, rel, rng, grid, env, syms):
         rel.tetrad = "quasi-Kinnersley" if "_qK_" in name else "fluid"
         return rel.tetrad_base()[int(name[-1])]
     raise T.TraceError("no real call for helper " + name)
+
+
+def validate_printer(results, shapes, index, seed=0, timeout=1800):
+    """Printer validation: the generated Lean TEXT is evaluated over ℚ by
+    Gen/CoreEval.lean on a random flat input and compared, exactly, with the
+    evaluation of the traced DAG with Fractions (same stand-ins for D and the
+    opaque functions on both sides). Returns (n_defs, mismatches)."""
+    import random
+    import subprocess
+    from fractions import Fraction
+    from lib import fw
+    from . import emit_core
+    rnd = random.Random(seed)
+    lay, n = emit_core.env_layout(shapes)
+
+    def rq():
+        return Fraction(rnd.randint(-9, 9) or 1, rnd.randint(1, 5))
+    a = [rq() for _ in range(n)]
+    g = [rq() for _ in range(len(emit_core.ARG_ORDER) * emit_core.ARG_STRIDE)]
+    env = {}
+    for nm, (off, shp) in lay.items():
+        if not shp:
+            env[nm] = a[off]
+        else:
+            for k, idx in enumerate(np.ndindex(*shp)):
+                env[T.sym_key(nm, idx)] = a[off + k]
+
+    def opaque(name, val, arg_expr):
+        if name.startswith("D"):
+            return (int(name[1:]) + 2) * opaque.ev(arg_expr)
+        if name == "sqrt":
+            return val * val + 1
+        if name == "log":
+            return val + 3
+        if name == "exp":
+            return 2 * val - 1
+        if name == "abs":
+            return val * val
+        if name.startswith("rpow:"):
+            fr = Fraction(name[5:])
+            return val * fr + 1
+        raise T.TraceError("no stand-in for " + name)
+    fmt = lambda q: "%d/%d" % (q.numerator, q.denominator)
+    inp = " ".join(fmt(q) for q in a) + "\n" + " ".join(fmt(q) for q in g) + "\n"
+    # native executable (no Mathlib in its import closure): `lake build coreeval`
+    import fcntl
+    lock = open(os.path.join(fw.LEAN, ".build.lock"), "w")
+    fcntl.flock(lock, fcntl.LOCK_EX)
+    try:
+        b = subprocess.run(["timeout", str(timeout), "lake", "build", "coreeval"], cwd=fw.LEAN, capture_output=True, text=True)
+    finally:
+        fcntl.flock(lock, fcntl.LOCK_UN)
+        lock.close()
+    if b.returncode != 0:
+        return 0, ["lake build coreeval failed: " + (b.stdout + b.stderr)[-600:]]
+    p = subprocess.run(["timeout", str(timeout), os.path.join(fw.LEAN, ".lake", "build", "bin", "coreeval")],
+                       cwd=fw.LEAN, input=inp, capture_output=True, text=True)
+    # (the Lean 4.33 interpreter can crash in its destructor AFTER main has finished and
+    # flushed; the END sentinel tells whether the output is complete)
+    if "\nEND" not in p.stdout:
+        return 0, ["CoreEval driver failed (rc %s): " % p.returncode + (p.stderr or p.stdout)[-400:]]
+    lean_vals = {}
+    for line in p.stdout.split("\n"):
+        parts = line.split()
+        if parts:
+            lean_vals[parts[0]] = [Fraction(x) for x in parts[1:]]
+    mism, ndefs = [], 0
+    byname = {}
+    for name, alts in results.items():
+        for al in alts:
+            byname[name + emit_core.alt_suffix(al, len(alts))] = (name, al)
+    for i in index:
+        if i["status"] != "ok":
+            continue
+        name, al = byname[i["name"]]
+        argsh = emit_core.helper_arg_shapes(name)
+        env2 = dict(env)
+        for an, shp in argsh.items():
+            off = emit_core.ARG_ORDER.index(an) * emit_core.ARG_STRIDE
+            if not shp:
+                env2[an] = g[off]
+            else:
+                for k, idx in enumerate(np.ndindex(*shp)):
+                    env2[T.sym_key(an, idx)] = g[off + k]
+        memo = {}
+        opaque.ev = lambda e_, env2=env2, memo=memo: T.evaluate(e_, env2, opaque, memo)
+        comps = al["comps"]
+        exprs = list(np.ravel(comps)) if isinstance(comps, np.ndarray) else [comps]
+        vals = [T.evaluate(e_, env2, opaque, memo) for e_ in exprs]
+        got = lean_vals.get(i["name"])
+        ndefs += 1
+        if got is None or len(got) != len(vals) or any(x != y for x, y in zip(got, vals)):
+            mism.append("%s: Lean text evaluates differently from the traced DAG" % i["name"])
+    return ndefs, mism
